@@ -161,6 +161,13 @@ func (queue *FileQueue) checkFile() error {
 		log.Debugf("load file %s", queue.path())
 		offset, err := queue.scanFile(queue.path(), queue.Offset)
 		if err == nil || err == ErrEOF {
+			// cut the file at the end of the last complete record: Put/PutBatch write at Offset without
+			// truncating, so the rest of a torn record would otherwise stay behind the next (shorter)
+			// record and be parsed as records on the following start
+			err = os.Truncate(filePath, offset)
+			if err != nil {
+				return err
+			}
 			queue.Offset = offset
 			return nil
 		} else {
